@@ -111,3 +111,24 @@ fn vp_native_head_roundtrip_small() {
     }
     println!("VP-NATIVE head_roundtrip_small cases={}", cases);
 }
+
+/// C05: the max_headers limit counts field lines (repeated names included): a head is accepted iff it has at most max_headers fields
+#[test]
+fn vp_native_head_field_limit() {
+    let names = ["set-cookie", "x-a", "x-b", "x-c", "x-d", "x-e", "x-f"];
+    let mut cases = 0u64;
+    for max in 0usize..5 { for count in 0usize..8 { for distinct in 1usize..=names.len() {
+        let mut wire = b"HTTP/1.1 200 OK\r\n".to_vec();
+        for i in 0..count { wire.extend_from_slice(format!("{}: v{}\r\n", names[i % distinct], i).as_bytes()); }
+        wire.extend_from_slice(b"\r\n");
+        let mut reader = std::io::BufReader::with_capacity(7, &wire[..]);
+        let got = crate::parsing::response::parse_response_head(&mut reader, max);
+        cases += 1;
+        match got {
+            Ok((_, h)) => { assert!(count <= max, "{} field lines ({} distinct names) accepted with max_headers = {}", count, distinct.min(count), max); assert_eq!(h.len(), count); }
+            Err(e) => { assert!(count > max, "{} field lines refused with max_headers = {}: {}", count, max, e);
+                        assert!(matches!(e.kind(), crate::ErrorKind::InvalidResponse(crate::error::InvalidResponseKind::Header))); }
+        }
+    } } }
+    println!("VP-NATIVE head_field_limit cases={}", cases);
+}
